@@ -17,9 +17,9 @@ Notation FP := Build_fp.
 Notation PF := Build_ffp.
 
 (** A field of a base class: name, validators; default present, nothing else. *)
-Definition BA (n : string) (vs : list sym) : fattr :=
-  {| fa_name := n; fa_default := true; fa_vals := vs; fa_convs := []; fa_hook := OsNone;
-     fa_kw := false; fa_init := true; fa_meta := MVCopy []; fa_inh := false |}.
+Definition BA (n : string) (vs : list sym) : battr :=
+  {| ba_name := n; ba_default := true; ba_vals := vs; ba_convs := []; ba_hook := OsNone;
+     ba_kw := false; ba_init := true; ba_meta := [] |}.
 
 (** ** Boolean equalities *)
 
@@ -122,7 +122,6 @@ Record case := {
   c_metas : list (list string);
   c_dicts : list pydict }.
 
-Definition n_defs (ops : list op) : nat := List.length (filter is_def ops).
 
 Definition model_full (c : case) : world := run (empty_world (c_counter c)) (c_ops c).
 
